@@ -12,6 +12,11 @@ let xerr_s = function
   | Some (XStatus c) -> (match int_of_n c with 1 -> "eof" | _ -> "status:" ^ hex_of_n c)
   | Some XNoProgress -> "noprogress"
 
+(* the deterministic content the harness uses (byte i = (7 i + 3) mod 251), built natively: Model.pattern computes the same
+   bytes on Peano naturals in quadratic time, which is too slow for the thorough tier's transfers of a few hundred KiB *)
+let pattern_fast (start : int) (n : int) : byte list =
+  List.init n (fun k -> byte_of_int ((7 * (start + k) + 3) mod 251))
+
 let rec take n l = if n <= 0 then [] else match l with [] -> [] | x :: t -> x :: take (n - 1) t
 
 let z_of_int (i : int) : z =
@@ -55,9 +60,9 @@ let install register get getn geti getb =
     let rplan = plan_of (get kv "rfail") and wplan = plan_of (get kv "wfail") in
     let src = get kv "src" and regular = getb kv "regular" in
     let lookup plan = fun (o : nat) -> List.assoc_opt (int_of_nat o) plan in
-    let s = { file = pattern O (nat_of_int flen); maxTx = nat_of_int maxtx; rfail = lookup rplan; wfail = lookup wplan } in
+    let s = { file = pattern_fast 0 flen; maxTx = nat_of_int maxtx; rfail = lookup rplan; wfail = lookup wplan } in
     let o = { maxPacket = nat_of_int p; maxConc = nat_of_int conc; concReads = cr; concWrites = cw; useFstat = fst } in
-    let data = pattern (nat_of_int 1000) (nat_of_int len) in
+    let data = pattern_fast 1000 len in
     let noff = nat_of_int off and nlen = nat_of_int len in
     let failing = rplan <> [] || wplan <> [] in
     let all = nat_of_int (len + 2) in
